@@ -354,6 +354,16 @@ func execC12Inner(c c12Case) *ev.Failure {
 	return ev.Failf("harness:leg", "unknown leg %q", c.Leg)
 }
 
+type statusRecorder struct {
+	http.ResponseWriter
+	status int
+}
+
+func (r *statusRecorder) WriteHeader(code int) {
+	r.status = code
+	r.ResponseWriter.WriteHeader(code)
+}
+
 func firstOr(b [][]byte) []byte {
 	if len(b) == 0 {
 		return nil
@@ -384,6 +394,7 @@ func execC12Wire(c c12Case, pf *frugal.FProtocolFactory, limit, target int, what
 		}
 	}()
 	var handlerCalls int64
+	lastHTTPStatus := 0
 	h := sizedEchoHandler()
 	inner := h.echo
 	var mu sync.Mutex
@@ -395,7 +406,14 @@ func execC12Wire(c c12Case, pf *frugal.FProtocolFactory, limit, target int, what
 	}
 	switch c.Leg {
 	case "http.request", "http.response":
-		ts := httptest.NewServer(frugal.NewFrugalHandlerFunc(newSvcProcessor(h), pf))
+		inner := frugal.NewFrugalHandlerFunc(newSvcProcessor(h), pf)
+		ts := httptest.NewServer(http.HandlerFunc(func(w http.ResponseWriter, r *http.Request) {
+			rec := &statusRecorder{ResponseWriter: w, status: 200}
+			inner(rec, r)
+			mu.Lock()
+			lastHTTPStatus = rec.status
+			mu.Unlock()
+		}))
 		cleanup = append(cleanup, ts.Close)
 		b := frugal.NewFHTTPTransportBuilder(&http.Client{Timeout: 20 * time.Second}, ts.URL)
 		if c.Leg == "http.request" {
@@ -583,6 +601,14 @@ func execC12Wire(c c12Case, pf *frugal.FProtocolFactory, limit, target int, what
 		default:
 			if err != nil && !isTooLarge(err, frugal.TRANSPORT_EXCEPTION_RESPONSE_TOO_LARGE) {
 				return ev.Failf("oversize-response-not-reported", "%s: caller got %T %v", what(sz), err, err)
+			}
+			// in the band the two sides must at least agree: a response the server judged to be within
+			// the requested limit (status 200) is not rejected by the client that asked for the limit
+			mu.Lock()
+			st := lastHTTPStatus
+			mu.Unlock()
+			if c.Leg == "http.response" && st == 200 && (err != nil || len(r) != n) {
+				return ev.Failf("within-limit-rejected", "%s: the server accepted the response as within the requested limit (200) but the caller got %d bytes, %T %v", what(sz), len(r), err, err)
 			}
 		}
 	}
